@@ -62,13 +62,13 @@ RULE = ("a case is one transition: a token history accepted by the pop-on / roll
 BOUNDS = {
   "quick": "9 families, control codes doubled unless stated: popon-layout (all 12 PACs rows {1,14,15} x {indent 0, indent 8, "
            "white underline, cyan}, texts 'ab' / 'c'+null, optional ENM / EDM, depth 7), popon-pen (3 PACs, TO1-3, mid-row "
-           "{italics, white, green underline}, BS, special, extended, depth 6), popon-reuse (rows addressed twice, depth 6), "
-           "rollup (RU2/3/4, 6 PACs, 2 mid-row codes, BS, extended, EDM, depth 6), painton (6 PACs, mid-row, BS, DER, "
-           "extended, EDM, depth 6), painton-words (pairs with blanks, depth 6), mix (alternations of the three styles, depth 8), "
+           "{italics, white, green underline}, BS, special, extended, depth 6), popon-reuse (rows addressed twice, depth 7), "
+           "rollup (RU2/3/4, 6 PACs, 2 mid-row codes, BS, extended, EDM, depth 7), painton (6 PACs, mid-row, BS, DER, "
+           "extended, EDM, depth 6), painton-words (pairs with blanks, depth 7), mix (alternations of the three styles, depth 9), "
            "deco-n / deco-d (single and doubled codes x null / channel-2 code / channel-2 PAC+text x line breaks with gap "
-           "0 / 1 / 40 frames, NDF resp. DF time codes across 00:01:00, depth 5); text_align auto on every history, "
-           "left / center / right on every history that ends with EOC",
-  "thorough": "the same families one (popon-pen, painton) or two tokens deeper",
+           "0 / 1 / 40 frames, NDF resp. DF time codes across 00:01:00, depth 5 resp. 6); text_align auto on every history, "
+           "left / center / right on every history that ends with EOC; odd VERIF_SEED swaps DF and NDF",
+  "thorough": "popon-layout 9, popon-pen 7, popon-reuse 8, rollup 8, painton 7, painton-words 8, mix 10, deco-n 7, deco-d 7",
 }
 ASSUMPTIONS = [
   "mc/ref608dec.py is CEA-608 / 47 CFR 15.119 (bound by gates(): PAC row table, hand examples, the literals asserted by "
@@ -183,8 +183,8 @@ PROFILES = {
                  doubling="both", rate="d", reuse=False),
 }
 DEPTHS = {
-  "quick": {"popon-layout": 7, "popon-pen": 6, "popon-reuse": 6, "rollup": 6, "painton": 6, "painton-words": 6, "mix": 8,
-            "deco-n": 5, "deco-d": 5},
+  "quick": {"popon-layout": 7, "popon-pen": 6, "popon-reuse": 7, "rollup": 7, "painton": 6, "painton-words": 7, "mix": 9,
+            "deco-n": 5, "deco-d": 6},
   "thorough": {"popon-layout": 9, "popon-pen": 7, "popon-reuse": 8, "rollup": 8, "painton": 7, "painton-words": 8, "mix": 10,
                "deco-n": 7, "deco-d": 7},
 }
@@ -988,14 +988,11 @@ def _culprit(history, prof, dev=frozenset(), kind=None):
 
 
 def _features(history, idx, dev=frozenset()):
-  """context of the culprit token: protocol state, class of the token, kind of the last PAC, and the state of the
-  cursor's row in the target memory (empty / append: text ends at the cursor / gap: text ends before the cursor /
-  over: there is text at or after the cursor)"""
+  """context of the culprit token: protocol state before it, class of the token, whether the display was erased since the
+  style was entered and which edits (mid-row code, backspace) the current row has seen, and the state of the cursor's row
+  in the memory written to (empty / append: text ends at the cursor / gap: text ends before the cursor / over: there is
+  text at or after the cursor; for a CR also whether text directly precedes the cursor)"""
   p = Proto()
-  last_pac = "none"
-  for t in history[:idx + 1]:
-    if tok_kind(t) == "PAC":
-      last_pac = "indent" if base_tok(t)[-2] == "i" else "attr"
   d = R6.Decoder(frozenset(x for x in dev if x != DEV_ROW_ANTICIPATED))
   for t in history[:idx]:
     p.step(t)
@@ -1014,8 +1011,8 @@ def _features(history, idx, dev=frozenset()):
     if b in STYLE_START:
       if STYLE_START[b] != cur_style:
         erased = "n"
+        hist.clear()
       cur_style = STYLE_START[b]
-      hist.clear()
     elif b == "EDM":
       erased = "y"
     elif k in ("PAC", "CR", "EOC"):
@@ -1250,7 +1247,7 @@ def _words_of(line):
   return [int(w, 16) for w in line.split()]
 
 
-def _run_ref(lines, cols=None):
+def _run_ref(lines):
   d = R6.Decoder()
   shots = []
   for ln in lines:
